@@ -22,7 +22,7 @@ PID = "C12"
 
 SHAPES = [(0,), (1,), (2,), (1, 1), (0, 2), (2, 1), (1, 0, 1), (1, 1, 1)]
 KINDS = ["declaration", "compound", "for", "while", "do", "if-siblings", "if-then-else-visibility", "function", "struct",
-         "compound-siblings"]
+         "compound-siblings", "if-chain-siblings"]
 
 
 def _classes():
@@ -115,6 +115,16 @@ def _step(inst):
                 d1, d2 = StubDecl(Q), StubDecl(Q)
                 out["decls"] = [d1, d2]
                 v.v_Visit(ast.IfStatement(lit(), d1, d2), ctx)
+            elif kind == "if-chain-siblings":
+                # if (..) decl; else if (..) decl; else decl;   three disjoint sibling scopes (after r5-C12-1)
+                d1, d2, d3 = StubDecl(Q), StubDecl(Q), StubDecl(Q)
+                out["decls"] = [d1, d2, d3]
+                v.v_Visit(ast.IfStatement(lit(), d1, ast.IfStatement(lit(), d2, d3)), ctx)
+            elif kind == "if-chain-visibility":
+                d1, p1, p2 = StubDecl(Q), StubProbe(names()), StubProbe(names())
+                out["decls"] = [d1]
+                out["probes"] = [p1, p2]
+                v.v_Visit(ast.IfStatement(lit(), d1, ast.IfStatement(lit(), p1, p2)), ctx)
             elif kind == "if-then-else-visibility":
                 d1, p = StubDecl(Q), StubProbe(names())
                 out["decls"] = [d1]
@@ -181,7 +191,14 @@ def _step(inst):
                 c += eq_list(val["probes"][0], vis_list([q]))
             c += unchanged
             return z3.And(*c)
-        if kind in ("if-siblings", "compound-siblings"):
+        if kind == "if-chain-visibility":
+            c.append(rej == in_chain(q))
+            if not val["rejected"]:
+                c += eq_list(val["probes"][0], vis_list([]))   # neither later branch sees the first branch's q
+                c += eq_list(val["probes"][1], vis_list([]))
+            c += unchanged
+            return z3.And(*c)
+        if kind in ("if-siblings", "compound-siblings", "if-chain-siblings"):
             c.append(rej == in_chain(q))     # the two declarations live in disjoint sibling scopes
             c += unchanged
             return z3.And(*c)
@@ -346,7 +363,39 @@ def gen_programs(tier):
     progs.append(("export function f(int p) -> int { { int t = 1; { p = t; } } return p; }", True, "use in nested block"))
     progs.append(("export function f(int p) -> int { { int t = p * 2; } return t; }", False, "first block of a function leaks"))
     progs.append(("export function f(int p) -> int { { int t = p * 2; } int t = 7; return t; }", True, "redeclare after first block"))
+    progs += _branch_chains()
     return progs
+
+
+def _branch_chains():
+    """if / else-if / else chains of 2-4 branches, every branch braced or not (after r5-C12-1: a declaration that is the unbraced true
+    path of an `if` followed by an `else if` chain): each branch declares the same name (disjoint siblings: accepted), or one
+    branch uses the name a strictly earlier branch declared (rejected), or the name is declared before the chain (rejected)"""
+    import itertools
+    out = []
+    for k in (2, 3, 4):
+        for last_is_else in (True, False):
+            for forms in itertools.product(("braced", "bare"), repeat=k):
+                for user in [None] + list(range(1, k)):
+                    for outer in (False, True):
+                        if outer and user is not None:
+                            continue
+                        parts = []
+                        for j, form in enumerate(forms):
+                            stmt = "p = t;" if user == j else f"int t = {j + 1};"
+                            stmt = "{ " + stmt + " }" if form == "braced" else stmt
+                            if j == 0:
+                                head = "if (p > 5)"
+                            elif j == k - 1 and last_is_else:
+                                head = "else"
+                            else:
+                                head = f"else if (p > {5 - j})"
+                            parts.append(f"{head} {stmt}")
+                        src = "export function f(int p) -> int { " + ("int t = 0; " if outer else "") + " ".join(parts) + " return p; }"
+                        expect = user is None and not outer
+                        what = "all declare t" if expect else ("t declared before the chain" if outer else f"branch {user} uses the t of an earlier branch")
+                        out.append((src, expect, f"branch chain {'/'.join(forms)}{' else' if last_is_else else ' else-if'}: {what}"))
+    return out
 
 
 def compile_accepts(src):
@@ -401,6 +450,8 @@ def replay(spec):
             "for": f"for (int {qn} = 0; {qn} < p0; ++{qn}) {{ }}", "while": f"while (p0 < 0) {{ int {qn} = 1; }}",
             "do": f"do {{ int {qn} = 1; }} while (p0 < 0)", "if-siblings": f"if (p0 > 0) int {qn} = 1; else int {qn} = 2;",
             "if-then-else-visibility": f"if (p0 > 0) int {qn} = 1; else p0 = {qn};",
+            "if-chain-siblings": f"if (p0 > 1) int {qn} = 1; else if (p0 > 0) int {qn} = 2; else int {qn} = 3;",
+            "if-chain-visibility": f"if (p0 > 1) int {qn} = 1; else if (p0 > 0) p0 = 1; else p0 = {qn};",
         }.get(kind)
         if node is None:
             if kind == "struct":
@@ -414,7 +465,7 @@ def replay(spec):
             src = "{ " + " ".join(f"int {x} = 0;" for x in tbl) + " " + src + " }"
         src = "export function f(int p0) -> int " + src[:-1] + " return p0; }"
         want = qn not in visible
-        if kind == "if-then-else-visibility":
+        if kind in ("if-then-else-visibility", "if-chain-visibility"):
             want = False      # either a redeclaration, or the else branch uses a name that is not visible there
         got = compile_accepts(src)
         return None if got == want else dict(source=src, expected=want, accepted=got)
